@@ -263,10 +263,275 @@ class HistGen:
             ops += ['peer', 'peer']
         if v.of_class('ConnectionPoint'):
             ops += ['add_link', 'add_link']
+        if v.nodes:
+            ops += ['rename', 'rename', 'set_props']
+        if v.of_class('Link'):
+            ops += ['remove_link']
+        if len(self.svc_refs(v)) >= 2:
+            ops += ['unpeer']
+        if v.all_node_cps():
+            ops += ['connect', 'connect', 'add_child'] + ([] if self.sub else ['port_mirror'])
         op = r.choice(ops)
         valid = r.random() < 0.3
         fn = getattr(self, 'f_' + op)
         return fn(v, valid)
+
+    # ------------------------------------------------------------ calls on existing elements
+    def elements(self, v):
+        """(ref, node tuple, ids of the other elements of its naming scope)"""
+        out = []
+        allnn = [n[0] for n in v.of_class('NetworkNode')]
+        for n in v.net_nodes() + v.facilities():
+            out.append((['node', n[2]], n, [x for x in allnn if x != n[0]]))
+        for n in v.net_nodes():
+            comps = v.components(n[0])
+            for c in comps:
+                out.append((['comp', n[2], c[2]], c, [x[0] for x in comps if x[0] != c[0]]))
+        allns = [x[0] for x in v.of_class('NetworkService')]
+        for ref, sv in self.svc_refs(v):
+            if ref[0] == 'top':
+                sibs = [x for x in allns if x != sv[0]]
+            else:
+                owner = [n for n in v.net_nodes() + v.facilities() if n[2] == ref[1]][0]
+                sibs = [x[0] for x in v.node_services(owner[0]) if x[0] != sv[0]]
+            out.append((['svc', ref], sv, sibs))
+            if ref[0] == 'top':
+                cps = v.nb(sv[0], 'connects', 'ConnectionPoint')
+                for c in cps:
+                    out.append((['cp', c], v.nodes[c], [x for x in cps if x != c]))
+        for n, cp in v.all_node_cps():
+            owner_svc = v.nb(cp, 'connects', 'NetworkService')
+            sibs = [x for o in owner_svc for x in v.nb(o, 'connects', 'ConnectionPoint') if x != cp]
+            out.append((['cp', cp], v.nodes[cp], sibs))
+        alll = [x[0] for x in v.of_class('Link')]
+        for l in v.of_class('Link'):
+            out.append((['link', l[2]], l, [x for x in alll if x != l[0]]))
+        # names must identify the element for the by-name references
+        return out
+
+    def f_rename(self, v, valid):
+        r = self.rng
+        els = self.elements(v)
+        if not els:
+            return None
+        ref, n, sibs = r.choice(els)
+        if valid:
+            return {'op': 'rename', 'el': ref, 'new': self.fresh_name('rn')}
+        faults = ['bad_name', 'bad_name']
+        if sibs:
+            faults += ['dup_in_scope'] * 4
+        ft = r.choice(faults)
+        if ft == 'bad_name':
+            new = r.choice(['x' * 256, '', 'bad*name', 'x' * 300] + (['a'] if ref[0] != 'cp' else []))
+        else:
+            new = v.nodes[r.choice(sibs)][2]
+        return {'op': 'rename', 'el': ref, 'new': new, 'fault': ft}
+
+    def f_set_props(self, v, valid):
+        r = self.rng
+        els = self.elements(v)
+        if not els:
+            return None
+        ref, n, sibs = r.choice(els)
+        if valid:
+            return {'op': 'set_props', 'el': ref, 'kw': self.kw()[0] or [['details', ['raw', 'd%d' % self.k]]]}
+        kw, pos = self.kw(bad=True)
+        return {'op': 'set_props', 'el': ref, 'kw': kw, 'pos': pos, 'fault': 'bad_prop'}
+
+    def f_remove_link(self, v, valid):
+        r = self.rng
+        links = v.of_class('Link')
+        peering = [l for l in links if any(v.nodes[c][3] == 'ServicePort' for c in v.nb(l[0], 'connects', 'ConnectionPoint'))]
+        plain = [l for l in links if l not in peering]
+        names = [l[2] for l in links]
+        if valid:
+            cand = [l for l in plain if names.count(l[2]) == 1]
+            if not cand:
+                return None
+            return {'op': 'remove_link', 'name': r.choice(cand)[2]}
+        faults = ['unknown']
+        if peering:
+            faults += ['peering_link'] * 4
+        ft = r.choice(faults)
+        if ft == 'unknown':
+            return {'op': 'remove_link', 'name': 'no-such-link-%d' % self.k, 'fault': ft}
+        return {'op': 'remove_link', 'name': r.choice(peering)[2], 'fault': ft}
+
+    def f_unpeer(self, v, valid):
+        r = self.rng
+        refs = self.svc_refs(v)
+        pairs = [(x, y) for x in refs for y in refs if x[1][0] != y[1][0]]
+        def peered(x, y):
+            for cp in v.nb(x[1][0], 'connects', 'ConnectionPoint'):
+                if v.nodes[cp][3] != 'ServicePort':
+                    continue
+                for l in v.nb(cp, 'connects', 'Link'):
+                    for q in v.nb(l, 'connects', 'ConnectionPoint'):
+                        if q != cp and v.nodes[q][3] == 'ServicePort' and y[1][0] in v.nb(q, 'connects', 'NetworkService'):
+                            return True
+            return False
+        yes = [p for p in pairs if peered(*p)]
+        no = [p for p in pairs if not peered(*p)]
+        if valid:
+            if not yes:
+                return None
+            x, y = r.choice(yes)
+            return {'op': 'unpeer', 'a': x[0], 'b': y[0]}
+        if not no:
+            return None
+        x, y = r.choice(no)
+        return {'op': 'unpeer', 'a': x[0], 'b': y[0], 'fault': 'not_peering'}
+
+    def f_port_mirror(self, v, valid):
+        r = self.rng
+        free = self.free_cps(v)
+        conn = [(n, cp) for (n, cp) in v.all_node_cps() if v.connected(cp)]
+        s = {'op': 'port_mirror', 'name': self.fresh_name('pm'), 'from': 'some-port', 'node_id': None}
+        if valid:
+            if not free:
+                return None
+            s['to'] = ['cp', r.choice(free)[1]]
+            if r.random() < 0.3:
+                s['vlan'] = '100'
+            return s
+        faults = ['no_to', 'no_from', 'bad_prop', 'bad_name']
+        if conn:
+            faults += ['to_already_connected'] * 3
+        if self.stale:
+            faults += ['to_stale'] * 2
+        if v.top_services():
+            faults += ['dup_name']
+        ft = r.choice(faults)
+        s['fault'] = ft
+        s['to'] = ['cp', r.choice(free)[1]] if free else None
+        if ft == 'no_to':
+            s['to'] = None
+        elif s['to'] is None and ft not in ('to_already_connected', 'to_stale'):
+            return None
+        if ft == 'no_from':
+            s['from'] = None
+        elif ft == 'bad_prop':
+            s['kw'], s['pos'] = self.kw(bad=True)
+        elif ft == 'bad_name':
+            s['name'] = self.bad_name(2)
+        elif ft == 'to_already_connected':
+            s['to'] = ['cp', r.choice(conn)[1]]
+        elif ft == 'to_stale':
+            s['to'] = ['saved', r.choice(self.stale)]
+        elif ft == 'dup_name':
+            s['name'] = r.choice(v.top_services())[2]
+        return s
+
+    def f_connect(self, v, valid):
+        r = self.rng
+        tops = [(ref, sv) for (ref, sv) in self.svc_refs(v) if ref[0] == 'top']
+        if not tops:
+            return None
+        ref, sv = r.choice(tops)
+        free = self.free_cps(v)
+        free_all = self.free_cps(v, any_length=True)
+        conn = [(n, cp) for (n, cp) in v.all_node_cps() if v.connected(cp)]
+        if valid:
+            ok = [(n, cp) for (n, cp) in free if not (sv[3] == 'L2PTP' and v.nodes[cp][3] == 'SharedPort')]
+            if not ok:
+                return None
+            return {'op': 'connect', 'svc': ref, 'if': ['cp', r.choice(ok)[1]]}
+        faults = []
+        if conn:
+            faults += ['already_connected'] * 2
+        if len(free_all) > len(free):
+            faults += ['long_derived_name'] * 6
+        if self.stale:
+            faults += ['stale'] * 2
+        if v.service_ports():
+            faults += ['not_owned']
+        if free:
+            faults += ['peer_name_taken', 'link_name_taken']
+        shared = [(n, cp) for (n, cp) in free if v.nodes[cp][3] == 'SharedPort']
+        l2ptp = [(rf, x) for (rf, x) in tops if x[3] == 'L2PTP']
+        if shared and l2ptp:
+            faults += ['l2ptp_shared'] * 2
+        if not faults:
+            return None
+        ft = r.choice(faults)
+        s = {'op': 'connect', 'svc': ref, 'fault': ft}
+        if ft == 'already_connected':
+            s['if'] = ['cp', r.choice(conn)[1]]
+        elif ft == 'long_derived_name':
+            s['if'] = ['cp', r.choice([x for x in free_all if x not in free])[1]]
+        elif ft == 'stale':
+            s['if'] = ['saved', r.choice(self.stale)]
+        elif ft == 'not_owned':
+            s['if'] = ['cp', r.choice(v.service_ports())]
+        elif ft == 'l2ptp_shared':
+            s['svc'] = r.choice(l2ptp)[0]
+            s['if'] = ['cp', r.choice(shared)[1]]
+        else:
+            n0, cp0 = r.choice(free)
+            s['if'] = ['cp', cp0]
+            derived = n0[2] + '-' + v.nodes[cp0][2]
+            if ft == 'peer_name_taken':
+                self.do({'op': 'add_interface', 'svc': ref, 'name': derived, 'itype': 'TrunkPort', 'node_id': self.nid('p')}, False)
+            else:
+                other = [c[0] for c in v.of_class('ConnectionPoint') if c[0] != cp0]
+                if not other:
+                    return None
+                self.do({'op': 'add_link', 'name': derived + '-link', 'ltype': 'L2Path', 'ifs': [['cp', r.choice(other)]],
+                         'node_id': self.nid('l')}, False)
+        return s
+
+    def f_add_child(self, v, valid):
+        r = self.rng
+        ded = [(n, cp) for (n, cp) in v.all_node_cps() if v.nodes[cp][3] == 'DedicatedPort']
+        other = [(n, cp) for (n, cp) in v.all_node_cps() if v.nodes[cp][3] != 'DedicatedPort']
+        s = {'op': 'add_child', 'name': self.fresh_name('ch'), 'node_id': self.nid('ch'), 'vlan': str(100 + self.k)}
+        withkids = [(n, cp) for (n, cp) in ded if v.nb(cp, 'connects', 'ConnectionPoint')]
+        if valid:
+            if not ded:
+                return None
+            s['if'] = ['cp', r.choice(ded)[1]]
+            return s
+        faults = []
+        if ded:
+            faults += ['no_vlan', 'bad_prop', 'bad_name', 'dup_id']
+        if withkids:
+            faults += ['dup_name'] * 2 + ['dup_vlan'] * 2
+        if other:
+            faults += ['not_dedicated']
+        if self.sub and ded:
+            faults += ['sub_no_id']
+        if not faults:
+            return None
+        ft = r.choice(faults)
+        s['fault'] = ft
+        s['if'] = ['cp', r.choice(ded)[1]] if ded else None
+        if ft == 'no_vlan':
+            s['vlan'] = None
+        elif ft == 'bad_prop':
+            s['kw'], s['pos'] = self.kw(bad=True)
+            s['kw'] = [x for x in s['kw'] if x[0] != 'labels']
+            if not any(x in BAD_KW or x[0] in ('foo', 'nosuchproperty') or x[1][0] in ('raw', 'long') for x in s['kw']):
+                s['kw'].append(['foo', ['raw', 1]])
+        elif ft == 'bad_name':
+            s['name'] = self.bad_name(1)
+        elif ft == 'dup_id':
+            s['node_id'] = r.choice(list(v.nodes))
+        elif ft == 'sub_no_id':
+            s['node_id'] = None
+        elif ft == 'not_dedicated':
+            s['if'] = ['cp', r.choice(other)[1]]
+        else:
+            n0, cp0 = r.choice(withkids)
+            s['if'] = ['cp', cp0]
+            kid = r.choice(v.nb(cp0, 'connects', 'ConnectionPoint'))
+            if ft == 'dup_name':
+                s['name'] = v.nodes[kid][2]
+            else:
+                lab = json.loads(json.loads(v.nodes[kid][4]).get('Labels', '{}'))
+                if not lab.get('vlan'):
+                    return None
+                s['vlan'] = lab['vlan']
+        return s
 
     def f_add_node(self, v, valid):
         r = self.rng
@@ -730,6 +995,8 @@ class HistGen:
             choices += ['remove_service']
         if len(v.top_services()) >= 2 and r.random() < 0.3:
             choices += ['peer'] * 2
+        if r.random() < 0.25:
+            choices += ['add_child'] * 2 + ['connect', 'rename']
         c = r.choice(choices)
         if c == 'add_node':
             return [self.s_add_node()]
@@ -755,6 +1022,9 @@ class HistGen:
             return [{'op': 'save_if', 'ref': ['cp', r.choice(cps)], 'as': key}, {'op': 'remove_node', 'name': n[2]}]
         if c == 'peer':
             sp = self.f_peer(v, True)
+            return [sp] if sp else []
+        if c in ('add_child', 'connect', 'rename'):
+            sp = getattr(self, 'f_' + c)(v, True)
             return [sp] if sp else []
         if c == 'remove_service':
             return [{'op': 'remove_service', 'name': r.choice(v.top_services())[2]}]
